@@ -202,10 +202,24 @@ func keyGroup(g, rep int) any {
 		return col.List[any](n).MakeFromArray([]any{int64(1), "x"})
 	case 3:
 		return []any{uint16(2), uint64(2), uint(2)}[rep%3]
-	default:
+	case 4:
 		return col.Set[any](n).MakeFromArray([]any{int64(5)})
+	case 5: // the same complex number in both widths
+		return []any{complex64(complex(1, 2)), complex(1, 2), complex64(complex(1, 2))}[rep%3]
+	case 6: // the same float in both widths
+		return []any{float32(1.5), 1.5, float32(1.5)}[rep%3]
+	case 7: // a pointer of its own for every call, to an equal number
+		p := new(int64)
+		*p = 7
+		return p
+	case 8: // a complex number with an undefined part: not equal to itself for Go, one key for the collator
+		return complex(math.NaN(), 1)
+	default: // a rune and the int32 it is
+		return []any{'r', int32('r'), 'r'}[rep%3]
 	}
 }
+
+const keyGroups = 10
 
 func execMapKeys(prop string) func(mapKeysCase, core.Source) core.Result {
 	return func(c mapKeysCase, _ core.Source) (res core.Result) {
@@ -247,6 +261,8 @@ func execMapKeys(prop string) func(mapKeysCase, core.Source) core.Result {
 			return
 		}
 		switch {
+		case prop == "C08" && eq != same:
+			res.Violation = core.Violate("C08/map-keys/compare-vs-content", "%s: CompareValues = %v although the values agree = %v (RankValues = %v)", desc, eq, same, ab)
 		case ba != mirrorRank(ab):
 			res.Violation = core.Violate("C07/map-keys/not-mirrored", "%s: RankValues = %v, reversed = %v", desc, ab, ba)
 		case (ab == age.EqualRank) != same:
@@ -263,8 +279,8 @@ func execMapKeys(prop string) func(mapKeysCase, core.Source) core.Result {
 func genMapKeys(s core.Source) mapKeysCase {
 	c := mapKeysCase{Form: core.Pick(s, []string{"gomap", "Map", "Catalog"}, "form"), RepA: s.Choose(3, "rep-a"), RepB: s.Choose(3, "rep-b")}
 	c.Groups = []int{}
-	for g := 0; g < 5; g++ {
-		if s.Choose(2, "use-group") == 1 {
+	for g := 0; g < keyGroups; g++ {
+		if s.Choose(3, "use-group") == 1 {
 			c.Groups = append(c.Groups, g)
 			c.ValsA = append(c.ValsA, s.Choose(2, "va"))
 			c.ValsB = append(c.ValsB, s.Choose(2, "vb"))
